@@ -1518,6 +1518,12 @@ impl<'a> Lifter<'a> {
                 let val_fn = self.hoist_closure("scatter_val", &ids, &iv, &v(format!("{{ let {jv} = {}[{iv}]; {} }}", list.text, val.text), "real"));
                 self.bind(&arr, "RArr");
                 let r = self.rest(rest, cont)?;
+                // the usual case `arr[j] = ..` with j the list element itself: the index list is passed as it is
+                let idx_is_j = matches!(&idx_e, Expr::Path(p) if p.path.is_ident(&jv))
+                    || matches!(&idx_e, Expr::Unary(u) if matches!(u.op, syn::UnOp::Deref(_)) && matches!(&*u.expr, Expr::Path(p) if p.path.is_ident(&jv)));
+                if idx_is_j {
+                    return Ok(v(format!("{{ let {arr} = scatter_seq({0}, {0}.len() as int, {val_fn}, {arr}); {1} }}", list.text, r.text), &r.ty));
+                }
                 Ok(v(format!("{{ let {arr} = scatter({}.len() as int, {idx_fn}, {val_fn}, {arr}); {} }}", list.text, r.text), &r.ty))
             }
             Expr::ForLoop(f) if self.accumulation_loop(f).is_some() => {
